@@ -46,7 +46,8 @@ type Prop[C any] struct {
 	Rule     string // the non-triviality rule, in words (goes to the evidence file)
 	Gen      func(t *rapid.T) C
 	Run      func(t *testing.T, c C) Outcome
-	NoShrink bool // schedule/real-thread dependent: do not let rapid spend time shrinking
+	NoShrink bool          // schedule/real-thread dependent: do not let rapid spend time shrinking
+	Timeout  time.Duration // per-case watchdog (default CaseTimeout); virtual-time cases finish in milliseconds
 }
 
 // ---------------------------------------------------------------------------------------------
@@ -194,6 +195,11 @@ func regressDir(id string) string { return filepath.Join("testdata", "regress", 
 
 // Check runs one property: regression corpus first, then generated cases (or a single replay).
 func Check[C any](t *testing.T, p Prop[C]) {
+	propTimeout = p.Timeout
+	if _, set := os.LookupEnv("VERIF_CASE_TIMEOUT_S"); set {
+		propTimeout = 0
+	}
+	defer func() { propTimeout = 0 }()
 	test := t.Name()
 	st := getStats(test, p.ID, p.Rule)
 	start := time.Now()
@@ -442,8 +448,16 @@ func GoID() int64 {
 // goroutines parked on a mutex (a proven deadlock) for a property that promises termination.
 var CaseTimeout = time.Duration(envInt("VERIF_CASE_TIMEOUT_S", 90)) * time.Second
 
+// propTimeout: watchdog of the property being run (set by Check from Prop.Timeout; tests of one
+// process run one after the other).
+var propTimeout time.Duration
+
 func watched[C any](id, test string, c C, run func() Outcome) Outcome {
-	timer := time.AfterFunc(CaseTimeout, func() { hang(id, test, c) })
+	d := CaseTimeout
+	if propTimeout > 0 {
+		d = propTimeout
+	}
+	timer := time.AfterFunc(d, func() { hang(id, test, c) })
 	defer timer.Stop()
 	return run()
 }
@@ -465,7 +479,7 @@ func hang[C any](id, test string, c C) {
 		}
 	}
 	raw := canon(c)
-	out := Outcome{Violation: "case did not finish within " + CaseTimeout.String() + " of real time; goroutine dump:\n" + dump, Sig: "hang"}
+	out := Outcome{Violation: "case did not finish within its real-time watchdog; goroutine dump:\n" + dump, Sig: "hang"}
 	if len(out.Violation) > 20000 {
 		out.Violation = out.Violation[:20000]
 	}
